@@ -87,6 +87,18 @@ class SymMethod:
         self.name = name
 
 
+class IntSubclass(int):
+    """Stands for 'some subclass of int' (enum.IntEnum members, user classes): what type() may return for an int."""
+
+
+class StrSubclass(str):
+    pass
+
+
+class FloatSubclass(float):
+    pass
+
+
 class Library:
     def __init__(self, interp):
         self.ip = interp
@@ -105,7 +117,18 @@ class Library:
         if f is isinstance:
             return self.b_isinstance(*args)
         if f is type and len(args) == 1:
-            return pytype(args[0])
+            v = args[0]
+            if isinstance(v, (SInt, SStr, SFloat)) and not getattr(st, 'garbled', False):
+                # a value of type class int / str / float may be an instance of a SUBCLASS (enum.IntEnum, a user class):
+                # isinstance() cannot tell, type() can - code that dispatches on the exact type sees both
+                key = ('exact-type', id(getattr(v, 't', v)))
+                if key not in st.decided:
+                    st.decided[key] = st.branch(st.fresh_bool('exact_builtin_type'), 'type():exact-builtin-type')
+                if not st.decided[key]:
+                    st.subclass_values = getattr(st, 'subclass_values', [])
+                    st.subclass_values.append(v)
+                    return {SInt: IntSubclass, SStr: StrSubclass, SFloat: FloatSubclass}[type(v)]
+            return pytype(v)
         if f is len:
             return self.b_len(args[0])
         if f is getattr:
@@ -460,6 +483,9 @@ class Library:
                 enc = args[0] if args else kwargs.get('encoding', 'utf-8')
                 if str(enc).lower().replace('_', '-') not in ('utf-8', 'utf8'):
                     raise OutOfSubset('str.encode(%r)' % (enc,))
+                errors = args[1] if len(args) > 1 else kwargs.get('errors', 'strict')
+                if errors != 'strict' or len(args) > 2 or set(kwargs) - {'encoding', 'errors'}:
+                    raise OutOfSubset('str.encode(errors=%r): only the strict handler is modelled' % (errors,))
                 return st.str_encode(obj)
             raise OutOfSubset('str.%s on symbolic str' % name)
         if isinstance(obj, SBytes):
@@ -467,6 +493,9 @@ class Library:
                 enc = args[0] if args else kwargs.get('encoding', 'utf-8')
                 if str(enc).lower().replace('_', '-') not in ('utf-8', 'utf8'):
                     raise OutOfSubset('bytes.decode(%r)' % (enc,))
+                errors = args[1] if len(args) > 1 else kwargs.get('errors', 'strict')
+                if errors != 'strict' or len(args) > 2 or set(kwargs) - {'encoding', 'errors'}:
+                    raise OutOfSubset('bytes.decode(errors=%r): only the strict handler is modelled' % (errors,))
                 return st.bytes_decode(obj)
             raise OutOfSubset('bytes.%s on symbolic bytes' % name)
         if isinstance(obj, SOpaque):
